@@ -653,6 +653,7 @@ def case_guard(ctx, rng, idx):
     conf.rep_max = int(rng.choice([2, 3, 5]))
     conf.stop_at = None
     conf.skip_p = 0.0
+    conf.fixed = {**conf.fixed, "noise_w": 1e-9}
     conf.delete_partial = False
     conf.results_name = ["res", "res.json"][idx % 2]      # no template: same file names
     tag = conf_tag(conf)
@@ -667,21 +668,28 @@ def case_guard(ctx, rng, idx):
         shutil.rmtree(wd, ignore_errors=True)
         return
     kind = ["fixed-value", "unpacked-list", "extra-parameter", "larger-rep_max",
-            "same", "unpacked-list-keep-first"][idx % 6]
-    if kind == "unpacked-list-keep-first" and not complete_first:
+            "same", "unpacked-list-keep-first", "fixed-value-close", "fixed-value-tiny",
+            "unpacked-list-close"][idx % 9]
+    if kind in ("unpacked-list-keep-first", "unpacked-list-close") and not complete_first:
         # the file of a LATER variation must exist: crash in the last variation
         shutil.rmtree(wd, ignore_errors=True)
         wd = fresh_dir("c07_%d_guard" % idx)
         st = run_child(conf, wd, {"rep": (2 * conf.rep_max + 1, "after")}, 0, "first")
         files = snapshot_files(wd)
     if kind == "fixed-value":
-        ov = {"fixed": {"bias": 2.5, "label": "x"}}
+        ov = {"fixed": {**conf.fixed, "bias": 2.5}}
+    elif kind == "fixed-value-close":      # differs in the 7th digit only
+        ov = {"fixed": {**conf.fixed, "bias": 1.5 * (1 + float(rng.choice([1e-7, 1e-9, 3e-6])))}}
+    elif kind == "fixed-value-tiny":       # a small-magnitude quantity (noise power in W)
+        ov = {"fixed": {**conf.fixed, "noise_w": float(rng.choice([5e-9, 1.1e-9, 2e-12]))}}
+    elif kind == "unpacked-list-close":
+        ov = {"unpacked": {"snr": np.array([0.0, 5.0 * (1 + 1e-7), 10.0])}}
     elif kind == "unpacked-list":
         ov = {"unpacked": {"snr": np.array([1.0, 5.0, 10.0])}}
     elif kind == "unpacked-list-keep-first":
         ov = {"unpacked": {"snr": np.array([0.0, 6.0, 12.0])}}
     elif kind == "extra-parameter":
-        ov = {"fixed": {"bias": 1.5, "label": "x", "extra": 3}}
+        ov = {"fixed": {**conf.fixed, "extra": 3}}
     elif kind == "larger-rep_max":
         ov = {"rep_max": conf.rep_max + int(rng.integers(1, 4))}
     else:
@@ -689,7 +697,8 @@ def case_guard(ctx, rng, idx):
     st2 = run_child(conf, wd, {}, UID_RESTART, "second", override=ov)
     err = read_text(os.path.join(wd, "err_second.txt"))
     d = {**tag, "changed": kind, "status": st2, "error": err[-500:]}
-    if kind in ("fixed-value", "unpacked-list", "extra-parameter", "unpacked-list-keep-first"):
+    if kind in ("fixed-value", "unpacked-list", "extra-parameter", "unpacked-list-keep-first",
+                "fixed-value-close", "fixed-value-tiny", "unpacked-list-close"):
         ctx.ev("parameter-guard", st2 != 0 and "ValueError" in err, cls=kind + ":not-refused",
                detail=d)
         ctx.ev("parameter-guard", snapshot_files(wd) == files or
@@ -712,7 +721,7 @@ def classify(w):
 
 GENS = {
     "crash": Gen(case_crash, 11, 1500),
-    "guard": Gen(case_guard, 24, 600),
+    "guard": Gen(case_guard, 36, 900),
     "sameobject": Gen(case_sameobject, 12, 600),
 }
 MIN_EVALS = {"exactly-once": 300, "restart-completes": 150, "crash-injected": 150,
